@@ -17,6 +17,7 @@ type Obs struct {
 	Result   string // deterministic deep rendering of the results
 	Panicked bool
 	Panic    string
+	PanicAddr uintptr // faulting address when the panic was a memory fault (debug.SetPanicOnFault)
 	Stack    string
 	TimeDep  bool // result depends on the wall clock: called, but not compared
 	Verify   bool // method is a verification predicate
@@ -235,17 +236,36 @@ func observe(rv reflect.Value, path string, opt ObserveOpts, depth int, out *[]O
 			defer func() {
 				if r := recover(); r != nil {
 					o.Panicked, o.Panic, o.Stack = true, fmt.Sprint(r), string(debug.Stack())
+					if a, ok := r.(interface{ Addr() uintptr }); ok {
+						o.PanicAddr = a.Addr()
+					}
 				}
 			}()
 			results = rv.Method(i).Call(nil)
 		}()
 		if !o.Panicked {
 			var sb strings.Builder
-			for j, r := range results {
-				if j > 0 {
-					sb.WriteString(" | ")
+			func() {
+				// reading the results can itself fault when they point into memory the caller has
+				// protected (guard-page monitor): that is recorded on the observation
+				defer func() {
+					if r := recover(); r != nil {
+						o.Panicked, o.Panic, o.Stack = true, "while reading the result: "+fmt.Sprint(r), string(debug.Stack())
+						if a, ok := r.(interface{ Addr() uintptr }); ok {
+							o.PanicAddr = a.Addr()
+						}
+					}
+				}()
+				for j, r := range results {
+					if j > 0 {
+						sb.WriteString(" | ")
+					}
+					render(&sb, r, 0, false)
 				}
-				render(&sb, r, 0, false)
+			}()
+			if o.Panicked {
+				*out = append(*out, o)
+				continue
 			}
 			o.Result = sb.String()
 			if o.Verify {
